@@ -19,6 +19,28 @@ def feed_run(tier, seed, q=800, t=20000):
     return {"mode": "pricefeed", "args": ["--seed", seed, "--count", _counts(tier, q, t)]}
 
 
+def world_runs(tier, seed, q=150, t=1200, tn=8):
+    if tier == "quick":
+        return [{"mode": "world", "args": ["--seed", seed, "--count", q]}]
+    return [{"mode": "world", "args": ["--seed", seed * 1000 + i, "--count", t]} for i in range(tn)]
+
+
+WORLD_RULE = ("world histories on the real contracts in cw-multi-test: random deployment (native / cw20 collateral, 6 / 9 decimals, mock / real price feed, "
+              "1-3 vAMMs at price 10 / 1 / 0.1, fee ratios 0-10%, fluctuation limit 0-20%, caps, margin ratios, liquidation fee 0-100%, partial ratio "
+              "0-100%, unregistered / closed vAMMs, small or empty insurance fund, small balances and allowances), then 10-60 state-dependent transactions "
+              "with same-block bursts, single blocks and gaps up to 25 h: open / increase / reduce / reverse, close (whole and partial), deposit / "
+              "withdraw (incl. free collateral ±1), liquidation campaigns (price pushed against a leveraged position, oracle realigned, TWAP waited out), "
+              "pay-funding before / at / after the funding time, oracle moves around the 10% spread limit, every admin entry point of every contract by "
+              "owner / pauser / stranger, direct vAMM calls, collateral housekeeping, malformed inputs. Full state of all contracts and balances is decoded "
+              "from raw storage after every transaction. Classes: (transaction kind, accepted?, collateral kind, same block?); distinct_nontrivial = "
+              "distinct classes reached")
+
+WORLD_ASSUMPTIONS = COMMON_ASSUMPTIONS + [
+    "the chain's sub-message / reply / atomicity semantics are those of cw-multi-test 0.13.4 (modelled by World.execSubs)",
+    "position keys are injective in (vamm, trader) (fixed-length addresses, no SHA3 collision)",
+    "re-wiring a contract to another engine / fund / feed by its owner is outside the quantifier",
+]
+
 VAMM_RULE = ("vAMM unit histories on the real contract (mock storage/querier): random deployment (decimals 5..18, ratios incl. D and D+1, "
              "reserves from one unit to 1e5 units, price >1/=1/<1, fluctuation limit 0/0.1%/1%/5%/100%), then 8-48 operations with "
              "same-block bursts, single blocks, gaps and a frozen clock: swap_input/swap_output (amounts: 0, 1-3, round fractions of the reserve "
@@ -29,23 +51,23 @@ VAMM_RULE = ("vAMM unit histories on the real contract (mock storage/querier): r
 
 PROPS = {
     "C01": {
-        "runs": lambda tier, seed: [vamm_run(tier, seed)],
+        "runs": lambda tier, seed: [vamm_run(tier, seed)] + world_runs(tier, seed),
         "rule": VAMM_RULE,
         "assumptions": COMMON_ASSUMPTIONS + ["the vAMM is driven through its public execute/query entry points on cosmwasm-std mock dependencies"],
     },
     "C15": {
-        "runs": lambda tier, seed: [vamm_run(tier, seed)],
+        "runs": lambda tier, seed: [vamm_run(tier, seed)] + world_runs(tier, seed),
         "rule": VAMM_RULE,
         "assumptions": COMMON_ASSUMPTIONS,
     },
     "C17": {
-        "runs": lambda tier, seed: [vamm_run(tier, seed)],
+        "runs": lambda tier, seed: [vamm_run(tier, seed)] + world_runs(tier, seed),
         "rule": VAMM_RULE + "; for every swap the harness also runs the same swap without a limit on a copy of the state (twin) to separate limit rejections from other rejections",
         "assumptions": COMMON_ASSUMPTIONS,
     },
     "C18": {
         "lean_modules": ["Perp.Props.C18", "Perp.Props.C18F"],
-        "runs": lambda tier, seed: [vamm_run(tier, seed), feed_run(tier, seed)],
+        "runs": lambda tier, seed: [vamm_run(tier, seed), feed_run(tier, seed)] + world_runs(tier, seed),
         "rule": VAMM_RULE + " || price feed unit histories on the real margined_pricefeed: append / append-multiple by owner and strangers with non-decreasing "
                 "timestamps (plus a malformed share: future / out-of-order), GetPrice / GetPreviousPrice{0..7} / GetTwapPrice over intervals 0..1e7, two keys",
         "assumptions": COMMON_ASSUMPTIONS,
@@ -63,5 +85,35 @@ PROPS = {
             "string form modelled over ASCII decimal digits with an own proved codec; serde_json only exercised, not modelled",
         ],
         "trusted_base": [],
+    },
+    "C03": {
+        "lean_modules": ["Perp.Props.Dispatch"],
+        "runs": lambda tier, seed: world_runs(tier, seed),
+        "rule": WORLD_RULE, "assumptions": WORLD_ASSUMPTIONS,
+    },
+    "C08": {
+        "lean_modules": ["Perp.Props.Dispatch"],
+        "runs": lambda tier, seed: world_runs(tier, seed),
+        "rule": WORLD_RULE, "assumptions": WORLD_ASSUMPTIONS,
+    },
+    "C09": {
+        "lean_modules": ["Perp.Props.VammGuards", "Perp.Props.C18F"],
+        "runs": lambda tier, seed: world_runs(tier, seed) + [vamm_run(tier, seed, 600, 10000), feed_run(tier, seed, 300, 5000)],
+        "rule": WORLD_RULE, "assumptions": WORLD_ASSUMPTIONS,
+    },
+    "C11": {
+        "lean_modules": ["Perp.Props.VammGuards"],
+        "runs": lambda tier, seed: world_runs(tier, seed) + [vamm_run(tier, seed, 600, 10000)],
+        "rule": WORLD_RULE, "assumptions": WORLD_ASSUMPTIONS,
+    },
+    "C14": {
+        "lean_modules": ["Perp.Props.VammGuards"],
+        "runs": lambda tier, seed: world_runs(tier, seed) + [vamm_run(tier, seed, 600, 10000)],
+        "rule": WORLD_RULE, "assumptions": WORLD_ASSUMPTIONS,
+    },
+    "C20": {
+        "lean_modules": ["Perp.Props.VammGuards"],
+        "runs": lambda tier, seed: world_runs(tier, seed) + [vamm_run(tier, seed, 600, 10000)],
+        "rule": WORLD_RULE, "assumptions": WORLD_ASSUMPTIONS,
     },
 }
